@@ -1274,3 +1274,17 @@ multi('C20', 'scan-skipped-unless-a-counter-of-exact-types-has-a-worm', 'mutant'
                    "            element.self_locking for element in elements if isinstance(element, WormGear))\n")], 'C20')
 mutant('C15', 'proposals-in-dict-keyed-by-rule-kind', PC, "        pwm_values = [rule.apply() for rule in self.__rules]\n",
        "        pwm_values = list({rule.__class__.__name__: rule.apply() for rule in self.__rules}.values())\n", 'C15.dep.arbitration')
+for _pid in ('C07', 'C09'):
+    mutant(_pid, 'face-width-cap-chosen-by-raw-numbers', WW, """            effective_face_width = min(
+                self.face_width, 0.67*self.drives.reference_diameter
+            )""", """            effective_face_width = min(
+                self.face_width, 0.67*self.drives.reference_diameter,
+                key=lambda width: width.value
+            )""", _pid)
+    benign(_pid, 'face-width-cap-chosen-by-si-key', WW, """            effective_face_width = min(
+                self.face_width, 0.67*self.drives.reference_diameter
+            )""", """            effective_face_width = min(
+                self.face_width, 0.67*self.drives.reference_diameter,
+                key=lambda width: width.to('m').value
+            )""")
+mutant('C17', 'pwm-sample-rounded', DC, "            self.time_variables['pwm'].append(self.pwm)", "            self.time_variables['pwm'].append(round(self.pwm, 6))", 'C17.one')
